@@ -312,7 +312,7 @@ def check_hooked(res, rmod, rule):
             continue
         for when in ('after', 'before'):
             res['states'] += 1
-            for p in paths_for(rule)[:60]:
+            for p in [q for q in paths_for(rule) if rr.match(rule, q.strip('/')) is not None][:60]:
                 r = roundtrip(rmod, rule, text, p, hook=(htext, when))
                 if r is not None and r[0] == 'nomatch':
                     continue
